@@ -122,13 +122,28 @@ func Walk(ctx context.Context, fileSystem fs.FS, prefix, delimiter, marker strin
 					if err != nil {
 						return fmt.Errorf("directory to object %q: %w", path, err)
 					}
+					// a directory object is a key like any other: it
+					// is listed once, after the marker, and only if it
+					// has the prefix
+					if !pastMarker {
+						if path+"/" == marker {
+							pastMarker = true
+							return skipflag
+						}
+						if path+"/" < marker {
+							return skipflag
+						}
+					}
+					if prefix != "" && !strings.HasPrefix(path+"/", prefix) {
+						return skipflag
+					}
 					if pastMax {
 						truncated = true
 						return fs.SkipAll
 					}
 					objects = append(objects, dirobj)
 					if (len(objects) + len(cpmap)) == int(max) {
-						newMarker = path
+						newMarker = path + "/"
 						pastMax = true
 					}
 
@@ -380,6 +395,12 @@ func WalkVersions(ctx context.Context, fileSystem fs.FS, prefix, delimiter, keyM
 				strings.HasPrefix(path+"/", prefix) {
 				cpmap[path+"/"] = struct{}{}
 				return fs.SkipDir
+			}
+
+			// a directory object is a key like any other: it is
+			// only listed if it has the prefix
+			if prefix != "" && !strings.HasPrefix(path+"/", prefix) {
+				return nil
 			}
 
 			res, err := getObj(path, versionIdMarker, &pastVersionIdMarker, max-len(objects)-len(delMarkers)-len(cpmap), d)
